@@ -273,8 +273,12 @@ func (c *maComp) Run(args []string) string {
 			c.m.UpdateOnce(v, decPath(p), updated)
 		}
 		return c.counts()
-	case args[0] == "updnoti" && len(args) >= 2:
-		c.srv.Update(ctree.DetachedLeaf(maNoti(args[1], args[2:])))
+	case (args[0] == "updnoti" || args[0] == "updnotiA") && len(args) >= 2:
+		// updnotiA: the same notification marked atomic (the cache keeps it as one leaf at its prefix;
+		// whom it is offered to is decided by its updates all the same)
+		n := maNoti(args[1], args[2:])
+		n.Atomic = args[0] == "updnotiA"
+		c.srv.Update(ctree.DetachedLeaf(n))
 		return c.counts()
 	case args[0] == "updother" && len(args) == 1:
 		c.srv.Update(ctree.DetachedLeaf("not a notification"))
@@ -475,6 +479,9 @@ func (c *maComp) Gen(r *rand.Rand, tier string) []string {
 			base := pick()
 			tok, rest := gpfx(base)
 			l := "updnoti " + tok
+			if r.Intn(4) == 0 {
+				l = "updnotiA " + tok
+			}
 			k := 1
 			switch y := r.Intn(10); {
 			case y == 0:
